@@ -570,7 +570,9 @@ impl fmt::Display for Exp {
                 format!("{} {} {}", string_lhs, operator, string_rhs)
             }
             Exp::UnOp(op, exp) => {
-                if exp.is_leaf() {
+                //a negative constant starts with a sign itself, `--4` does not parse
+                let is_signed_number = matches!(**exp, Exp::Number(value) if value.is_sign_negative());
+                if exp.is_leaf() && !is_signed_number {
                     format!("{}{}", op, exp)
                 } else {
                     format!("{}({})", op, exp)
